@@ -219,21 +219,21 @@ func init() {
 // hashConstOK: functions that may name a hash family directly (role → family is fixed there); everything else in the
 // trie packages must use the hash function the trie was constructed with.
 var hashConstOK = map[string]string{
-	"core/trie.NewTriePedersen":             "constructor: fixes the family of a role",
-	"core/trie.NewTriePoseidon":             "constructor",
-	"core/trie.NewTrieReaderPedersen":       "constructor",
-	"core/trie.NewTrieReaderPoseidon":       "constructor",
-	"core/trie.newTrieReader":               "constructor default",
-	"core/trie.newTrie":                     "constructor default",
-	"(*core/trie.Binary).String":            "debug rendering only",
-	"(*core/trie.Edge).String":              "debug rendering only",
-	"core/trie2.verifyRangeWithProof":       "range proofs are defined for Pedersen tries only; reviewed",
-	"core/trie2.VerifyRangeProof":           "range proofs are defined for Pedersen tries only (contract / storage tries); reviewed",
-	"core/trie2.NewContractTrie":            "constructor",
-	"core/trie2.NewContractStorageTrie":     "constructor",
-	"core/trie2.NewClassTrie":               "constructor",
-	"core/trie2.NewEmptyPedersen":           "constructor",
-	"core/trie2.NewEmptyPoseidon":           "constructor",
+	"core/trie.NewTriePedersen":                         "constructor: fixes the family of a role",
+	"core/trie.NewTriePoseidon":                         "constructor",
+	"core/trie.NewTrieReaderPedersen":                   "constructor",
+	"core/trie.NewTrieReaderPoseidon":                   "constructor",
+	"core/trie.newTrieReader":                           "constructor default",
+	"core/trie.newTrie":                                 "constructor default",
+	"(*core/trie.Binary).String":                        "debug rendering only",
+	"(*core/trie.Edge).String":                          "debug rendering only",
+	"core/trie2.verifyRangeWithProof":                   "range proofs are defined for Pedersen tries only; reviewed",
+	"core/trie2.VerifyRangeProof":                       "range proofs are defined for Pedersen tries only (contract / storage tries); reviewed",
+	"core/trie2.NewContractTrie":                        "constructor",
+	"core/trie2.NewContractStorageTrie":                 "constructor",
+	"core/trie2.NewClassTrie":                           "constructor",
+	"core/trie2.NewEmptyPedersen":                       "constructor",
+	"core/trie2.NewEmptyPoseidon":                       "constructor",
 	"(*core/trie2/triedb/pathdb.Database).getStateRoot": "path-scheme database, not reachable with the production configuration (nil trie-db config, see C05/helper-contract); hashes the class root with Pedersen — noted as observation O1 in DESIGN.md",
 }
 
